@@ -25,6 +25,12 @@ def check(run, tier):
     traces += E.random_histories(run, n, m, common.SEED, genkw={
         "weights": w, "users": ("alice", "bob"), "versions": [(1, 0), (1, 2), (1, 4), (2, 0)]})
     E.judge(run, traces, only=ONLY, name="c15")
+    # "an unsuccessful call changes nothing": a failed attribute operation followed, in the same batch, by an operation that
+    # commits - a change the failed item left in the shared unit of work shows up as a change the later item did not ask for
+    from . import c08
+    poisoned = c08.attr_then_commit(run, quick)
+    E.judge(run, poisoned, only={"C15", "C08"}, name="c15batch")
+    traces += poisoned
     E.summarise(run, traces)
     for t in traces:
         for s in t["steps"]:
